@@ -263,26 +263,6 @@ def sfi_hint(E, vars):
     E.prove("VolSphereFrustumConeIntersection._get_volume/step/height-is-the-centre-distance", centre_distance(E, c1, c2) == R(vars["hh"]), "annotation")
 
 
-def _make_fuv_usable_at_call_sites(Rg):
-    """C13's contract of find_unit_vector_on_plane states its postcondition through a clause that reads the carrier's local `r`
-    (proof hints); at a CALL SITE there is no such local.  Same contract object, same clause when the carrier is verified;
-    at call sites the plain statement (unit vector orthogonal to the argument) is assumed."""
-    c = Rg.get(f"{C13.SG}:find_unit_vector_on_plane")
-    if c is None or getattr(c, "_c14_wrapped", False):
-        return
-    lab, orig = c.ensures[0]
-
-    def clause(E, v, o):
-        if "r" in v:
-            return orig(E, v, o)
-        u, n = [R(x) for x in v["result"].items], [R(x) for x in o["normal_vec3"].items]
-        dot = lambda a, b: sum((x * y for x, y in zip(a, b)), z3.RealVal(0))
-        return z3.And(dot(u, u) == 1, dot(u, n) == 0)
-
-    c.ensures[0] = (lab, clause)
-    c._c14_wrapped = True
-
-
 # ===========================================================================
 # _get_volume_frustum_cone: the summation over the tree (traverse client rule)
 #
@@ -528,7 +508,6 @@ def gvfc_post_hint(E, vars):
 
 
 def register(Rg: Registry):
-    _make_fuv_usable_at_call_sites(Rg)
     Rg.add(f"{VOL}:_get_volume_frustum_cone.<locals>.leave", prop="C14",
            variants={f"{k}-children": leave_setup(k) for k in (0, 1, 2, 3)},
            requires=[("node-in-range-levels-1-to-9-and-from-level-3-positive-radii-distinct-centres", leave_pre)],
